@@ -63,6 +63,7 @@ def encObs : Obs → List Nat
   | .enterCbs s m sn => [0, s, m] ++ sn.map encOpt
   | .exitCbs s m sn => [1, s, m] ++ sn.map encOpt
   | .exitAbort s m sn => [5, s, m] ++ sn.map encOpt
+  | .enterAbort s m sn => [6, s, m] ++ sn.map encOpt
   | .failure s m sn => [2, s, m] ++ sn.map encOpt
   | .raised s m => [3, s, m]
   | .created i => [4, i + 1]
@@ -71,7 +72,8 @@ def encLog (l : List Obs) : List Nat := l.length :: l.flatMap encObs
 
 def c19Op : P Op := do
   let k ← nat; let s ← nat; let m ← nat; let src ← nat
-  pure (if k = 0 then .enter s m src else if k = 1 then .exit s m else .exitFail s m)
+  pure (if k = 0 then .enter s m src else if k = 1 then .exit s m else if k = 2 then .exitFail s m
+    else .enterFail s m src)
 
 def hookSnaps (c : FCfg) (nm : Nat) (st : FS) : List Nat :=
   (List.range nm).flatMap fun m => (snap c m st).map encOpt
@@ -106,13 +108,13 @@ def c19Trans : P FTrans := do
 /-- a history entry of the flat run: a trigger (model, event, does an on_exit callback raise?) or an edit
 of a state's public `tags` list -/
 inductive C19Step
-  | trig (m ev : Nat) (veto : Bool)
+  | trig (m ev : Nat) (veto eveto : Bool)
   | edit (s : Nat) (l : List Nat)
   | poll (m ev : Nat)
 
 def c19Step : P C19Step := do
   let k ← nat
-  if k = 0 then do let m ← nat; let ev ← nat; let v ← bool; pure (.trig m ev v)
+  if k = 0 then do let m ← nat; let ev ← nat; let v ← bool; let e ← bool; pure (.trig m ev v e)
   else if k = 1 then do let s ← nat; let l ← nats; pure (.edit s l)
   else do let m ← nat; let ev ← nat; pure (.poll m ev)
 
@@ -124,9 +126,9 @@ def c19RunFlat (F : Flat) (nm : Nat) : List C19Step → MS → List Nat
     [0, 10 + (if may F m ev ms then 1 else 0)]
       ++ ((List.range nm).flatMap fun x => ms.cur x :: (snap F.cfg x ms.fs).map encOpt)
       ++ c19RunFlat F nm r ms
-  | .trig m ev veto :: r, ms =>
+  | .trig m ev veto eveto :: r, ms =>
     let ms0 : MS := { ms with fs := { ms.fs with log := [] } }
-    let (ms1, res) := trigger F m ev ms0 veto
+    let (ms1, res) := trigger F m ev ms0 veto eveto
     encLog ms1.fs.log ++ [res.code]
       ++ ((List.range nm).flatMap fun x => ms1.cur x :: (snap F.cfg x ms1.fs).map encOpt)
       ++ c19RunFlat F nm r ms1
